@@ -65,7 +65,7 @@ M1 == Member(1, 12, 2)
 M0 == Member(0, 12, 2)
 DsSet == Pick({11, 12, 44, 157}, {0, 11, 12, 13, 25, 26, 29, 30, 44, 58, 61, 157, 253, 255}, 0..255)
 LzDs  == {LzipDesc(<<Member(1, ds, 2)>>, <<>>, 0) : ds \in DsSet}
-        \cup {LzipDesc(<<Member(0, ds, 2)>>, <<>>, 0) : ds \in Pick({}, {11, 44}, {11, 12, 44, 29, 30, 157})}
+        \cup {LzipDesc(<<Member(0, ds, 2)>>, <<>>, 0) : ds \in Pick({}, {11, 44}, 0..255)}
 LzVer == {LzipDesc(<<Member(v, 12, 2)>>, <<>>, 0) : v \in Pick({0, 1, 2}, {0, 1, 2, 255}, {0, 1, 2, 3, 255})}
 Faults == Pick({<<0, 0, 0>>, <<1, 0, 0>>, <<0, 1, 0>>, <<0, 0, 1>>, <<0, 0, -1>>},
                {<<0, 0, 0>>, <<1, 0, 0>>, <<0, 1, 0>>, <<0, -1, 0>>, <<0, 0, 1>>, <<0, 0, -1>>, <<1, 1, 1>>},
